@@ -91,18 +91,25 @@ where
         F: FnOnce() -> Result<T, E> + Send + 'static,
         E: Send + 'static,
     {
-        let result = match runtime.spawn_blocking(f).await {
+        // The object is wrapped on the blocking thread already: should this
+        // future be dropped after `f` has finished but before its result was
+        // picked up, the runtime drops a `SyncWrapper` (whose `Drop` hands the
+        // object to a blocking thread) and not the bare object on whichever
+        // thread dropped the future.
+        let wrap = move || {
+            f().map(|obj| Self {
+                obj: Arc::new(Mutex::new(Some(obj))),
+                runtime,
+            })
+        };
+        match runtime.spawn_blocking(wrap).await {
             // FIXME: Panicking when the creation panics is not nice.
             // In order to handle this properly the Manager::create
             // methods needs to support a custom error enum which
             // supports a Panic variant.
             Err(SpawnBlockingError::Panic(e)) => panic!("{:?}", e),
-            Ok(obj) => obj,
-        };
-        result.map(|obj| Self {
-            obj: Arc::new(Mutex::new(Some(obj))),
-            runtime,
-        })
+            Ok(result) => result,
+        }
     }
 
     /// Interacts with the underlying object.
